@@ -150,6 +150,11 @@ impl LogWriter {
     pub fn sync(&mut self) -> io::Result<()> {
         self.0.get_ref().sync_all()
     }
+
+    /// Close the log without writing out what a failed append left in the buffer.
+    pub fn discard(self) {
+        self.0.discard()
+    }
 }
 
 /// A random-access file reader that deserializes data using `bincode`.
